@@ -1,0 +1,17 @@
+//go:build verif
+
+// Contracts for package randomseed, read by /verif/govc (comment-only: no declarations, no effect on any build).
+
+package randomseed
+
+// sha256 / byte shuffling is outside the verifier's subset: the seed derivation is an uninterpreted function of the
+// previous signature (trusted: body not verified; only its determinism is used).
+//@ func CalculateRandomSeed
+//@   trusted
+//@   pure
+//@   ensures result == SeedOf(signature)
+
+//@ func RandomSeedToBytes
+//@   trusted
+//@   pure
+//@   ensures result == SeedBytes(randomSeed) && !isnil(result)
